@@ -13,10 +13,12 @@ import (
 
 	"github.com/btcsuite/btcd/btcutil/v2"
 	"github.com/btcsuite/btcd/wire/v2"
+	"github.com/lightningnetwork/lnd/chainntnfs"
 	"github.com/lightningnetwork/lnd/fn/v2"
 	"github.com/lightningnetwork/lnd/graph/db/models"
 	"github.com/lightningnetwork/lnd/htlcswitch/hop"
 	"github.com/lightningnetwork/lnd/internal/verifkit"
+	"github.com/lightningnetwork/lnd/lntest/mock"
 	"github.com/lightningnetwork/lnd/lnwire"
 )
 
@@ -37,7 +39,9 @@ import (
 // tap at the remote peers sees on which channel update_add_htlc leaves Bob and
 // swallows it together with the commit_sig that follows: the peers stay silent,
 // so an HTLC that was handed over stays in Bob's channel and the spendable
-// bandwidth only ever goes down.
+// bandwidth only ever goes down.  Block epochs reach the switch the way they do
+// in production: through the epoch stream it registered with the chain notifier
+// (any height, also lower than the one before - a reorg).
 //
 // The executor replays TLC-generated schedules (SwitchPolicyGen) and records
 // after every step what the real code shows.  Field copies only, no judgement:
@@ -68,6 +72,7 @@ type c09swStep struct {
 	RT   string            `json:"rt"`
 	RX   string            `json:"rx"`
 	H    c09swHtlc         `json:"h"`
+	HN   uint32            `json:"hn"` // Epoch: the height of the block epoch
 	Init map[string]string `json:"init"`
 }
 
@@ -420,6 +425,26 @@ func (n *c09swNet) forward(st c09swStep) (res, to, v string) {
 	}
 }
 
+// c09swEpoch delivers one block epoch of the given height to a started switch
+// through the epoch stream of its chain notifier.  The stream is unbuffered and
+// the forwarder stores the height before it returns to its select, so a second
+// delivery of the same tip (the notifier re-delivers tips: the model's Epoch(h)
+// taken twice) returns only after the first has been fully processed.
+func c09swEpoch(s *Switch, h uint32) string {
+	notifier, ok := s.cfg.Notifier.(*mock.ChainNotifier)
+	if !ok {
+		return "no mock notifier"
+	}
+	for i := 0; i < 2; i++ {
+		select {
+		case notifier.EpochChan <- &chainntnfs.BlockEpoch{Height: int32(h)}:
+		case <-time.After(5 * time.Second):
+			return "epoch not consumed"
+		}
+	}
+	return ""
+}
+
 func c09swExec(t *testing.T, plan string, steps []c09swStep) ([]c09swRec, error) {
 	if len(steps) == 0 || steps[0].A != "Reset" {
 		return nil, fmt.Errorf("%s: a schedule starts with Reset", plan)
@@ -465,6 +490,8 @@ func c09swExec(t *testing.T, plan string, steps []c09swStep) ([]c09swRec, error)
 			if c != nil && c.link != nil {
 				c.link.EnableAdds(Outgoing)
 			}
+		case "Epoch":
+			note = c09swEpoch(s, st.HN)
 		case "Fwd":
 			res, to, v = n.forward(st)
 		default:
